@@ -35,7 +35,7 @@ pub const K_MGR_BCAST: &str = "C19/manager/broadcast-peer-never-received-update"
 
 /// Polls `fut` with the simulated network's "current node" set, so that a `connect` made from inside it carries the
 /// node's own source address (the listener keeps one handler per peer address).
-struct OnNode<F> { node: u8, fut: Pin<Box<F>> }
+pub struct OnNode<F> { node: u8, fut: Pin<Box<F>> }
 impl<F: Future> Future for OnNode<F> {
     type Output = F::Output;
     fn poll(mut self: Pin<&mut Self>, cx: &mut Context<'_>) -> Poll<F::Output> {
@@ -43,7 +43,7 @@ impl<F: Future> Future for OnNode<F> {
         self.fut.as_mut().poll(cx)
     }
 }
-fn on_node<F: Future>(node: u8, fut: F) -> OnNode<F> { OnNode { node, fut: Box::pin(fut) } }
+pub fn on_node<F: Future>(node: u8, fut: F) -> OnNode<F> { OnNode { node, fut: Box::pin(fut) } }
 
 struct Upd { key: String, writer: u64, after_heal: bool, json: String }
 
